@@ -3270,6 +3270,23 @@ pub(crate) mod verif {
 		Ok((payloads.iter().map(|p| p.encode()).collect(), amt, cltv))
 	}
 
+	/// Serialized per-hop payloads of `build_onion_payloads`, with an optional `invoice_request`
+	/// (what `create_payment_onion` puts into the onion for the same arguments).
+	pub(crate) fn payloads_with_invoice_request(
+		path: &Path, recipient_onion: &RecipientOnionFields, cur_block_height: u32,
+		keysend_preimage: &Option<PaymentPreimage>, invoice_request: Option<&InvoiceRequest>,
+	) -> Result<(Vec<Vec<u8>>, u64, u32), APIError> {
+		let (payloads, amt, cltv) = build_onion_payloads(
+			path,
+			recipient_onion,
+			cur_block_height,
+			keysend_preimage,
+			invoice_request,
+			None,
+		)?;
+		Ok((payloads.iter().map(|p| p.encode()).collect(), amt, cltv))
+	}
+
 	/// `crypt_failure_packet`
 	pub(crate) fn crypt_failure_packet(shared_secret: &[u8], packet: &mut OnionErrorPacket) {
 		super::crypt_failure_packet(shared_secret, packet)
